@@ -407,6 +407,16 @@ def _subst(t, actual):
     return t
 
 
+def _arg_term(prog, pv, a, bb):
+    """normalised term of a call argument; a value that was edited in place (`x.f = v`, `&mut x`) between its definition
+    and the call is not what its definition says and is reported as such"""
+    t = _norm(_resolve_promoted(prog, pv.operand_term(a, bb, "term")))
+    edits = pv.tampered(a, bb, "term")
+    if edits:
+        return ("edited", t, tuple(sorted(set(edits))))
+    return t
+
+
 def abstract_structure(prog, key, depth=0):
     """(args, conds, chain): the structure function and normalised arguments that the bytes produced by `key` come from,
     the path conditions collected along the way (normalised, `?` edges dropped) and the chain of functions inlined.
@@ -424,7 +434,7 @@ def abstract_structure(prog, key, depth=0):
     if len(direct) == 1:
         bb, t = direct[0]
         from lib.prov import resolve_consts
-        args = tuple(_norm(_resolve_promoted(prog, pv.operand_term(a, bb, "term"))) for a in t["args"])
+        args = tuple(_arg_term(prog, pv, a, bb) for a in t["args"])
         cs = _norm_conds(prog, pv, f, bb)
         res = ((callee_path(t),) + args, cs, [key])
     elif not direct:
@@ -437,7 +447,7 @@ def abstract_structure(prog, key, depth=0):
                     cands.append((bb, t, sub))
         if len(cands) == 1:
             bb, t, (sargs, sconds, chain) = cands[0]
-            actual = [_norm(_resolve_promoted(prog, pv.operand_term(a, bb, "term"))) for a in t["args"]]
+            actual = [_arg_term(prog, pv, a, bb) for a in t["args"]]
             args = (sargs[0],) + tuple(_subst(x, actual) for x in sargs[1:])
             cs = _norm_conds(prog, pv, f, bb) + [(_subst(c[0], actual), c[1], c[2]) for c in sconds]
             res = (args, cs, [key] + chain)
